@@ -31,11 +31,19 @@ def cases(draw, tier="quick"):
                           absorbing_kinds=("n", "n", "n", "n", "abs"), reward_values=rv))
     iq = draw(st.one_of(st.sampled_from([0, 0.0, 3, -2.5, 1.5]),
                         st.lists(st.sampled_from([-2.0, 0.0, 1.0, 3.0, 0.5]), min_size=2, max_size=3)))
+    temp = draw(st.sampled_from([0, 0.0, 0.5, 2.0]))
+    if draw(st.integers(0, 5)) == 0:
+        # low temperature x cost-to-go magnitudes: |q / temp| in the hundreds (exp over- / underflows unless shifted),
+        # incl. the band just above exp's underflow threshold (q/temp ~ -745..-720) with nearly tied actions
+        temp = draw(st.sampled_from([0.1, 0.1, 0.01]))
+        base = draw(st.sampled_from([-745.0, -744.0, -730.0, -800.0, 720.0, -300.0])) * temp
+        iq = draw(st.one_of(st.just(base), st.lists(st.sampled_from([base, base + 0.5 * temp, base + 2 * temp, base - temp]),
+                                                    min_size=2, max_size=3)))
     return {
         "mdp": spec, "learner": draw(st.sampled_from(LEARNERS)),
         "step_size": draw(st.sampled_from([0, 0.1, 0.25, 0.5, 1, 1.0, 1e-10, 0.01])),
         "rand_choose": draw(st.sampled_from([0, 0.0, 0.1, 0.5, 1])),
-        "softmax_temp": draw(st.sampled_from([0, 0.0, 0.5, 2.0])),
+        "softmax_temp": temp,
         "initial_q": iq, "episodes": draw(st.integers(1, 8)),
         "seed": draw(st.one_of(st.sampled_from([0, 1, 2 ** 31 - 1]), st.integers(0, 10 ** 6))),
     }
